@@ -38,3 +38,15 @@ claim("C08",
   "Trusted: go/ssa, SCCP evaluator. Not covered: sufficiency of the overflow comparison for every magnitude (the rule checks which quantities it bounds, not its arithmetic), the MinInt64 exception, the lexer's DURATIONVAL continuation.",
   "static analysis: SCCP table extraction + ladder-shape check + dependence check of the overflow guard on SSA",
   "DESIGN.md 4/C08, 3/E1")
+
+claim("C09",
+  "Every `case TOKEN` arm of the constant folder and of the evaluator (about 190 arms) is checked to apply the Go operator or method TOKEN denotes between the left and right operand, in order for non-commutative operators; the negative-integer-versus-unsigned arms are checked for a strict sign test and the right constants; the boolean-literal short-cuts of reduceBinaryExpr are evaluated by constant propagation over all 18 (left kind, right kind, AND/OR) cases and must denote the truth table. Unit tests touch a fraction of the (operator x kind x kind) cells; this visits each arm. It decides operator correspondence, not arithmetic at boundary values.",
+  "Trusted: go/types, SCCP evaluator; operands are recognised by the lhs*/rhs* naming the two functions use (a rename drops the instance count under its floor and fails closed). Not covered: overflow/rounding at boundary values, idempotence of Reduce, time-zone handling of zone-less time strings (multiValuer.Zone), exactness of time arithmetic beyond the method used, cell-by-cell agreement of result kinds.",
+  "static analysis: per-arm operator correspondence over the type-checked AST + SCCP evaluation of the boolean short-cuts",
+  "DESIGN.md 4/C09")
+
+claim("C10",
+  "The finite tables the split depends on are extracted by constant propagation and compared with the property: operator -> (bound, +-1ns) in getTimeRange for every token; the operand-swap table and the 'other operand' wiring of both recognisers (case-folded) in conditionExpr; Intersect over all 24 (unset?, unset?, order) scenarios per bound; the four sentinel accessors; the nil/non-nil residual combinations of the AND/OR arm; and the boolean short-cuts of reduce through which the residual is built.",
+  "Trusted: go/ssa, SCCP evaluator with symbolic non-nil values. Not covered: literal conversion (ToTimeLiteral, locations), overflow at the sentinels, the meaning of OR between time bounds, parenthesised sub-conditions beyond the shared recursion.",
+  "static analysis: table extraction by sparse conditional constant propagation on SSA with call hooks",
+  "DESIGN.md 4/C10, 3/E1")
